@@ -193,6 +193,15 @@ func drawDetCase(rt *rapid.T) (*DetCase, bool) {
 			fmt.Fprintf(&b, "s%d = \"\"; foreach k, v in h%d { s%d = s%d + string(k) + \"=\" + string(v) + \";\"; }\n", i, i, i, i)
 		}
 	}
+	// patterns that do not compile, and ones nobody in this process has used
+	// before: the first evaluation and every later one say the same
+	if gen.Uniform(rt, "oddpatterns", 3) == 0 {
+		u := rapid.IntRange(0, 1<<30).Draw(rt, "patternid")
+		fmt.Fprintf(&b, "bp = \"(\" + \"u%d\";\ngp = \"^u%d\" + \"|x+\";\n", u, u)
+		b.WriteString("trace(replace(\"a(u1\", bp, \"-\"), match(\"a\", bp), replace(\"xxu\", gp, \"-\"), match(\"xx\", gp));\n")
+		b.WriteString("trace(replace(\"a(u1\", bp, \"-\"), match(\"a\", bp), replace(\"xxu\", gp, \"-\"), match(\"xx\", gp));\n")
+		nontrivial = true
+	}
 	// a host-provided map
 	if rapid.Bool().Draw(rt, "mapfield") {
 		hv := gen.HashValue(rt, "fieldhash", gen.ValueOpts{Depth: 2, FieldSafe: true})
